@@ -1,0 +1,46 @@
+package batch_schnorr
+
+import (
+	"github.com/bronlabs/errs-go/errs"
+
+	"github.com/bronlabs/bron-crypto/pkg/base/algebra"
+	"github.com/bronlabs/bron-crypto/pkg/base/serde"
+	"github.com/bronlabs/bron-crypto/pkg/base/utils"
+)
+
+// commitmentDTO and responseDTO are the wire representations of Commitment and Response. They are the
+// deserialisation trust boundary: a message whose element is missing decodes to a nil element, which can never
+// verify and would otherwise be dereferenced by Bytes and Verify.
+type commitmentDTO[G algebra.PrimeGroupElement[G, S], S algebra.PrimeFieldElement[S]] struct {
+	A G `cbor:"a"`
+}
+
+type responseDTO[S algebra.PrimeFieldElement[S]] struct {
+	Z S `cbor:"z"`
+}
+
+// UnmarshalCBOR deserialises a commitment and rejects a missing element.
+func (a *Commitment[G, S]) UnmarshalCBOR(data []byte) error {
+	dto, err := serde.UnmarshalCBOR[*commitmentDTO[G, S]](data)
+	if err != nil {
+		return errs.Wrap(err).WithMessage("cannot unmarshal commitment")
+	}
+	if dto == nil || utils.IsNil(dto.A) {
+		return ErrInvalidArgument.WithMessage("commitment element (a) cannot be nil")
+	}
+	a.A = dto.A
+	return nil
+}
+
+// UnmarshalCBOR deserialises a response and rejects a missing element.
+func (z *Response[S]) UnmarshalCBOR(data []byte) error {
+	dto, err := serde.UnmarshalCBOR[*responseDTO[S]](data)
+	if err != nil {
+		return errs.Wrap(err).WithMessage("cannot unmarshal response")
+	}
+	if dto == nil || utils.IsNil(dto.Z) {
+		return ErrInvalidArgument.WithMessage("response element (z) cannot be nil")
+	}
+	z.Z = dto.Z
+	return nil
+}
